@@ -102,8 +102,7 @@ def run(chk, tier, seed):
                          modules=["PvTime"], workers=8, jvm="throughput")
     for v in self_r.violated:
         raise RuntimeError("spec/PvTime.tla is not self-consistent: " + v)
-    # the whole calendar of the quantifier's range: every day 1970-01-01 .. 2100-12-31 (first / last second, first / last
-    # microsecond) round-trips, is followed by the next date, and rounding up carries correctly
+    # the whole calendar of the quantifier's range: every day 1970-01-01 .. 2100-12-31 (its first and its last microsecond) round-trips, is followed by the next date, and rounding up carries correctly
     cal_r = tlc.run_tlc("PvTime", "INIT Init\nNEXT Next\nINVARIANT RoundTripNs\nINVARIANT RoundTripPv\nINVARIANT NextDay\nINVARIANT CarryOk\n",
                         {"PvData": tlc.data_module("PvData", {"DayRange": "0..%d" % MAX_DAY, "Obs": "<<>>"}, extends="Integers, Sequences")},
                         modules=["PvTime"], workers=8, jvm="throughput")
